@@ -7,10 +7,14 @@ CLAIMS = {'C06': {'text': "Every random draw in src/quansino is shown (who-may-c
                  '(seed None / 0 / k>0) shows the given seed reaches the bit generator unchanged; global/fresh generators, clock, pid and set-order dependence are excluded package-wide. Universal '
                  "over seeds and global-generator states because it is a fact about the code's shape, not a sample of runs. G4 also treats set algebra on key views and materialised sets as "
                  'hash-ordered iterables. G5: no mutable object created at module or class level is handed out as per-object state (shared default operations, masks, scratch lists): two simulations '
-                 'built in one process share nothing but code and constants. G3 also scans every function that accepts a seed: a seed is never truth-tested (0 is a seed).',
+                 'built in one process share nothing but code and constants. G3 also scans every function that accepts a seed: a seed is never truth-tested (0 is a seed). Rule M (shared by every '
+                 'check, qsa/memo.py): no history-dependent memo on the trial path (randomness) — a value stored under a guard on its own cache attribute and kept between calls must be keyed on, '
+                 'refreshed from, or reset by every writer of, each mutable input it was computed from (ASE Atoms content split into components); an under-keyed cache is reported with the input that '
+                 'can change behind it and the public way to change it. A control module with known opaque and transparent memos is analysed on every run.',
          'note': "Trusted: numpy Generator(PCG64(seed)) is deterministic; ASE/numpy arithmetic is reproducible. Not decided: 'different seeds give different trajectories'. Assertions in the analysed "
                  'code are taken to hold (they are dropped from the normal form).',
-         'technique': 'static who-may-call over resolved imports + receiver provenance dataflow + finite case analysis of the seed path'},
+         'technique': "static who-may-call over resolved imports + receiver provenance dataflow + finite case analysis of the seed path + memo-site freshness analysis over the property's call-graph "
+                      'slice (rule M)'},
  'C08': {'text': 'Table agreement decided for every serializable class discovered by introspection of the parsed package (so classes added later are included): registered under its own name by a '
                  'module the relevant imports execute (S1), lookup bases admit what writers store (S2), emitted kwargs accepted by the constructor chain (S3), every constructor parameter / tunable / '
                  "driver setting emitted (S4), emitted value inverts the constructor's arithmetic (S5, sympy normal form), and an import-order simulation for every public module as first import (S6; "
@@ -18,11 +22,15 @@ CLAIMS = {'C06': {'text': "Every random draw in src/quansino is shown (who-may-c
                  "the attribute at that constant. S5 live-copy: a serialised attribute must be the one the object's behaviour reads (a second, construction-time copy of a public tunable is "
                  "reported). S5 includes driver settings held in the context: the serialised value must read the slot the setting lives in. S7: the drivers' from_dict works on a deep copy of its "
                  'argument (the rebuilt simulation owns its Atoms object and context values). S8: inside a from_dict an entry of the keyword dictionary is only ever replaced by the component rebuilt '
-                 'from it (no clamping / defaulting of stored values).',
+                 'from it (no clamping / defaulting of stored values). Rule M (shared by every check, qsa/memo.py): no history-dependent memo on serialisation — a value stored under a guard on its '
+                 'own cache attribute and kept between calls must be keyed on, refreshed from, or reset by every writer of, each mutable input it was computed from (ASE Atoms content split into '
+                 'components); an under-keyed cache is reported with the input that can change behind it and the public way to change it. A control module with known opaque and transparent memos is '
+                 'analysed on every run.',
          'note': "Trusted: ASE's JSON encoder round-trips ndarray/Atoms/Cell; Python import semantics as modelled (module-level statements, partially initialised modules, submodule fallback). "
                  'Callables and user-registered classes are outside. ForceBias/AdaptiveForceBias serialization gaps are listed known findings. Assertions in the analysed code are taken to hold (they '
                  'are dropped from the normal form).',
-         'technique': 'abstract interpretation of to_dict chains into schemas + constructor-chain resolution + registry/lookup table comparison + import-order simulation'},
+         'technique': 'abstract interpretation of to_dict chains into schemas + constructor-chain resolution + registry/lookup table comparison + import-order simulation + memo-site freshness '
+                      "analysis over the property's call-graph slice (rule M)"},
  'C07': {'text': "Structural necessary conditions of restart, each decided for every driver class: the function ASE's encoder executes (obj.todict()) is the most-derived to_dict (alias-vs-override "
                  'analysis), both ends exist, the file dictionary covers the constructor and the keys from_dict indexes, every context slot is emitted / a handle / per-trial scratch / recomputed '
                  'before the first step, from_dict restores generator state in place after construction plus attributes, context and move table, and every class name that can occur in the file '
@@ -31,38 +39,53 @@ CLAIMS = {'C06': {'text': "Every random draw in src/quansino is shown (who-may-c
                  "(unique_labels) is produced at run time only by the function from_dict uses. T4 also requires that the value written under a context slot's key reads that slot and nothing else. "
                  "T8: on the abstract heap, after every trial the calculator's cached results belong to the current configuration (a restarted run starts from an empty cache). T4 also requires that "
                  'the setattr replay loops of every from_dict are not guarded by the truth value of the stored value. T9: every component that can appear in a restart file writes its state '
-                 "unconditionally (or under a guard that loses nothing because the reader's default is the guarded value).",
+                 "unconditionally (or under a guard that loses nothing because the reader's default is the guarded value). Rule M (shared by every check, qsa/memo.py): no history-dependent memo on "
+                 'the trial path (state that a restart does not rebuild) — a value stored under a guard on its own cache attribute and kept between calls must be keyed on, refreshed from, or reset '
+                 'by every writer of, each mutable input it was computed from (ASE Atoms content split into components); an under-keyed cache is reported with the input that can change behind it and '
+                 'the public way to change it. A control module with known opaque and transparent memos is analysed on every run.',
          'note': 'Not decided: step-for-step equality of the resumed trajectory (behavioural), JSON number round trip (ASE encoder, trusted; its use of obj.todict() is validated against the '
                  'installed ASE source on every run). ForceBias/AdaptiveForceBias restart is a listed known finding. Assertions in the analysed code are taken to hold (they are dropped from the '
                  'normal form).',
-         'technique': 'class-alias/override resolution + abstract interpretation of to_dict/from_dict + slot coverage tables'},
+         'technique': "class-alias/override resolution + abstract interpretation of to_dict/from_dict + slot coverage tables + memo-site freshness analysis over the property's call-graph slice (rule "
+                      'M)'},
  'C15': {'text': 'Decided on the CFGs of the run loop: the observer guard (locals inlined) is equivalent to the stated schedule on an exhaustively enumerated bounded integer domain; all paths of '
                  'irun with the loop taken 0/1/2 times have exactly [yield step, increment, observers] per iteration with the bound fixed at entry; the start-up block is shown one-shot by '
                  're-evaluating its guard at every exit of every path that ran it (catches zero-length runs); every run/srun/run entry point of every driver class resolved through the MRO exhausts '
                  'the step generators. irun delegating to a private generator is spliced; a plain-function irun that validates / fixes the step bound when called and returns the generator (eager '
                  'set-up) is reported under O2. O3: the header is written in the one-shot start-up block and nowhere else, before the step-0 observer call (order from the pre-order of the normal '
                  'form). O3 also covers other writers: an assignment to a flag of the start-up guard outside irun / constructor / from_dict is evaluated over all flag × step-count states a finished '
-                 'call can leave, and may not make the guard true again.',
+                 'call can leave, and may not make the guard true again. Rule M (shared by every check, qsa/memo.py): no history-dependent memo on observer scheduling — a value stored under a guard '
+                 'on its own cache attribute and kept between calls must be keyed on, refreshed from, or reset by every writer of, each mutable input it was computed from (ASE Atoms content split '
+                 'into components); an under-keyed cache is reported with the input that can change behind it and the public way to change it. A control module with known opaque and transparent '
+                 'memos is analysed on every run.',
          'note': 'Not decided: byte identity of output files across split runs (follows from O1–O3 together with C06 and C16). Guard equivalence is exhaustive only within interval∈[-7,7], '
                  'step∈[0,20]; the predicate is piecewise in sign(interval) and step mod |interval|, which this domain covers for those intervals. Assertions in the analysed code are taken to hold '
                  '(they are dropped from the normal form).',
-         'technique': 'statement CFG path enumeration + dominance + bounded exhaustive predicate equivalence (checker-owned evaluator)'},
+         'technique': "statement CFG path enumeration + dominance + bounded exhaustive predicate equivalence (checker-owned evaluator) + memo-site freshness analysis over the property's call-graph "
+                      'slice (rule M)'},
  'C16': {'text': 'Typestate analysis of the file-operation sequence of every observer call (all CFG paths; ASE writers summarised and validated against the installed source): flush after the last '
                  'write, one newline-terminated write per log row/header, append-only trajectory, restart rewrite from offset 0 with truncation, and an exhaustive enumeration of crash points (every '
                  "prefix of every op sequence) mapped to an abstract file state that must be allowed for that file kind. W6: an observer's call writes no module- or class-level mutable object (no "
-                 'scratch state shared between loggers).',
+                 'scratch state shared between loggers). Rule M (shared by every check, qsa/memo.py): no history-dependent memo on observer output — a value stored under a guard on its own cache '
+                 'attribute and kept between calls must be keyed on, refreshed from, or reset by every writer of, each mutable input it was computed from (ASE Atoms content split into components); '
+                 'an under-keyed cache is reported with the input that can change behind it and the public way to change it. A control module with known opaque and transparent memos is analysed on '
+                 "every run. W7: a path-backed output file is opened once, by the observer's constructor; any other store of a path-like value into an observer's `file` goes through the setter, "
+                 "which opens with the original mode ('w' truncates completed output).",
          'note': "Granularity is one file operation (a torn single write counts as 'partial'); OS-level durability (fsync) is not claimed by the property. The non-atomic restart rewrite (two crash "
                  'points) is a listed known finding. Assertions in the analysed code are taken to hold (they are dropped from the normal form).',
-         'technique': 'typestate over file-operation sequences on CFG paths + exhaustive crash-prefix enumeration'},
+         'technique': "typestate over file-operation sequences on CFG paths + exhaustive crash-prefix enumeration + memo-site freshness analysis over the property's call-graph slice (rule M)"},
  'C09': {'text': 'Schedule shape decided on MonteCarlo.yield_moves/step/add_move: the due filter is equivalent to `step mod interval == 0` on an exhaustively enumerated bounded domain; every CFG '
                  'path yields exactly once per slot of range(max_cycles) and nothing iff no move is due; forced moves are repeat(due, minimum_count) placed by a choice without replacement sized to '
                  'the multiset; free slots are a fresh rng.choice over the due list with p = probability/Σprobability (value-numbered through the in-place division); the over-commit guard is '
                  'equivalent to Σ+new > max_cycles and dominates the table insertion; step() calls the selected move exactly once per yielded name. M5: the over-commitment test sums the minimum '
                  "counts of ALL stored moves (public scheduler helpers are seen through). M1 accepts an explicit error before the slot loop only under 'more forced moves than cycles', where the slot "
-                 'draw itself would fail.',
+                 'draw itself would fail. Rule M (shared by every check, qsa/memo.py): no history-dependent memo on move scheduling — a value stored under a guard on its own cache attribute and kept '
+                 'between calls must be keyed on, refreshed from, or reset by every writer of, each mutable input it was computed from (ASE Atoms content split into components); an under-keyed cache '
+                 'is reported with the input that can change behind it and the public way to change it. A control module with known opaque and transparent memos is analysed on every run.',
          'note': "Trusted: numpy's choice semantics (distinct elements without replacement; weight-0 elements never drawn). Not decided: selection frequencies; move tables edited behind add_move's "
                  'back (from_dict, direct attribute edits). Assertions in the analysed code are taken to hold (they are dropped from the normal form).',
-         'technique': 'CFG path enumeration + dataflow slicing/value numbering + bounded exhaustive predicate equivalence'},
+         'technique': "CFG path enumeration + dataflow slicing/value numbering + bounded exhaustive predicate equivalence + memo-site freshness analysis over the property's call-graph slice (rule "
+                      'M)'},
  'C17': {'text': 'Bounded-exhaustive decision: the __add__/__mul__/__rmul__ bodies and the __init__ chains that assign composite_move_type are interpreted by a checker-owned interpreter over model '
                  'objects (instances, composites, class values, generic aliases, metaclass), and EVERY expression tree over + and *n with every parenthesisation up to 4 leaves (quick, ~10^4 trees) / '
                  '5 leaves and two multiplications (thorough, ~2·10^5 trees) over five move kinds and three operation kinds is compared with the specification (elements in order with multiplicity; '
@@ -70,42 +93,59 @@ CLAIMS = {'C06': {'text': "Every random draw in src/quansino is shown (who-may-c
                  'CompositeMove.__call__ in the checker-owned interpreter on stand-in children for every result vector up to three children (calls in order, once each, with the context; result = '
                  'any). A1 also demands that every operand (leaf or intermediate result) still holds the elements it held when it was used (in-place list += is modelled). The empty composite is one '
                  "of the operand kinds (operations family). The specialised composite of an element class is taken from the constructor's composite_move_type declaration as well as from the "
-                 'subscripted base class.',
+                 'subscripted base class. Rule M (shared by every check, qsa/memo.py): no history-dependent memo on composite dispatch — a value stored under a guard on its own cache attribute and '
+                 'kept between calls must be keyed on, refreshed from, or reset by every writer of, each mutable input it was computed from (ASE Atoms content split into components); an under-keyed '
+                 'cache is reported with the input that can change behind it and the public way to change it. A control module with known opaque and transparent memos is analysed on every run. A4 is '
+                 'evaluated on a composite built by its own constructor and again on a second and third call after the element list was changed in place (replace, append).',
          'note': 'Trusted: typing caches parameterised generic aliases (same parameters, same object) — either way both branches then build the plain composite. The reflected spelling n*x is only '
                  'checked for classes that define __rmul__ (the property speaks of a*n). Exhaustive within the stated tree bound only. Assertions in the analysed code are taken to hold (they are '
                  'dropped from the normal form).',
-         'technique': 'finite abstract interpretation of dispatch code over kinds (checker-owned interpreter) + exhaustive bounded tree enumeration'},
+         'technique': "finite abstract interpretation of dispatch code over kinds (checker-owned interpreter) + exhaustive bounded tree enumeration + memo-site freshness analysis over the property's "
+                      'call-graph slice (rule M)'},
  'C03': {'text': 'Path-sensitive effect/typestate analysis over an abstract heap: atoms components (positions, momenta, other per-atom arrays with atom count/order, cell, constraints), calculator '
                  'cache, context and move slots carry symbolic version terms (with an algebra for insert/delete/re-insert and cell rescaling; aliases of live storage distinguished from copies). '
                  "quansino's own step loop, move bodies, context save/revert/reset chains and driver overrides are interpreted over it for every discovered driver × move-table scenario (incl. "
                  'composites built like m*2, a+b, mixed tables); undecidable conditions branch both ways, retry loops unroll 0/1/2 times; every path is explored. After every rejected or failed trial '
                  'each component must carry its pre-trial version and all bookkeeping/pre-selections must be clean. Universal over histories because it is a per-trial inductive step checked on all '
-                 'abstract paths.',
+                 'abstract paths. Rule M (shared by every check, qsa/memo.py): no history-dependent memo on proposal and undo — a value stored under a guard on its own cache attribute and kept '
+                 'between calls must be keyed on, refreshed from, or reset by every writer of, each mutable input it was computed from (ASE Atoms content split into components); an under-keyed cache '
+                 'is reported with the input that can change behind it and the public way to change it. A control module with known opaque and transparent memos is analysed on every run. U6: every '
+                 "snapshot slot the context's revert_state chain writes back into the atoms is re-taken from the live atoms on the run-start path (validate_simulation chain) of every driver using "
+                 "that context — the abstract heap's assumption that a run starts with fresh snapshots.",
          'note': 'Trusted: ASE setter/getter/delete semantics (table validated against the installed ASE source each run); reinsert_atoms inverts deletion (C19); atoms appended in the current trial '
                  "are unconstrained. Not decided: bit equality of contents beyond 'restored from a copy of the pre-trial value'; user check_move callables that mutate atoms. Constraint loss on "
                  'rejected deletion is a listed known finding. Assertions in the analysed code are taken to hold (they are dropped from the normal form).',
-         'technique': 'path-sensitive effect/typestate analysis (abstract heap with version terms, alias vs copy), exhaustive over abstract paths of each scenario'},
+         'technique': 'path-sensitive effect/typestate analysis (abstract heap with version terms, alias vs copy), exhaustive over abstract paths of each scenario + memo-site freshness analysis over '
+                      "the property's call-graph slice (rule M)"},
  'C04': {'text': "Same path-sensitive abstract heap as C03, extended with the calculator: calc.results / calc.atoms are components and every energy read is interpreted with ASE's cache rule (hit iff "
                  'calc.atoms equals the live atoms on positions/cell/numbers, else results replaced and recomputed; validated against the installed ASE source). For every driver × move-table '
                  'scenario and abstract path, after each accepted/rejected/failed trial: results never attributed to another configuration (also at every cached read), reference energy / remembered '
                  'results / positions / cell are those of the current configuration, and — Hamiltonian moves apart — exactly one evaluation per trial reaching its criteria, none for a failed one, '
                  'with a coherent cache afterwards. The per-trial invariants are inductive, so the claim covers all histories. Rule E5 models calculators with per-atom internal state (neighbour '
                  "lists): one more heap component records the atom set of the calculator's last real calculation, rebuilt only when ASE reports a `numbers` change (validated on the installed EMT and "
-                 'LennardJones sources); whenever calc.atoms carries the live atom set that component must agree.',
+                 'LennardJones sources); whenever calc.atoms carries the live atom set that component must agree. Rule M (shared by every check, qsa/memo.py): no history-dependent memo on energy '
+                 'bookkeeping — a value stored under a guard on its own cache attribute and kept between calls must be keyed on, refreshed from, or reset by every writer of, each mutable input it '
+                 'was computed from (ASE Atoms content split into components); an under-keyed cache is reported with the input that can change behind it and the public way to change it. A control '
+                 'module with known opaque and transparent memos is analysed on every run.',
          'note': "Trusted: ASE's Calculator.get_property/compare_atoms semantics as summarised (validated each run). Not decided: calculators with hidden internal state (neighbour lists), numbers of "
                  'force calls inside an integrator. One genuine defect found by this check was repaired (stale results after a vetoed Hamiltonian attempt inside a composite). The calculator left '
                  'unusable by a rejected insertion/deletion under GrandCanonical (EMT/LJ neighbour lists; confirmed on the real code) is a listed known finding, one entry per scenario. Assertions in '
                  'the analysed code are taken to hold (they are dropped from the normal form).',
-         'technique': 'path-sensitive effect/typestate analysis with a calculator-cache model, exhaustive over abstract paths of each scenario'},
+         'technique': "path-sensitive effect/typestate analysis with a calculator-cache model, exhaustive over abstract paths of each scenario + memo-site freshness analysis over the property's "
+                      'call-graph slice (rule M)'},
  'C05': {'text': 'On the abstract heap of C03/C04, for every grand-canonical scenario (one or several label-bearing moves, composites built like m*2 — the same object twice —, a+b, one object under '
                  "two names): labels are symbolic per-atom arrays whose length (a linear form over insertion-segment sizes) must equal the atoms' after every accepted/rejected/failed trial on every "
                  'abstract path; the particle counter is a symbolic count that must change by inserted minus deleted particles exactly on acceptance; the template is alias-tracked and never written; '
                  'one label assignment per inserted particle. default_label is decided by finite case analysis (None/0/negative/positive). Per-trial facts are inductive and so cover all histories. '
                  'Rule B6: labels and the unique-label cache from which fresh labels are picked are written by set_labels only (who-may-write, private helpers of set_labels included). Label draws '
-                 'are tokens with known distinctness (np.setdiff1d(all, taken)); np.unique over draws explores the coincidence case.',
+                 'are tokens with known distinctness (np.setdiff1d(all, taken)); np.unique over draws explores the coincidence case. Rule M (shared by every check, qsa/memo.py): no history-dependent '
+                 'memo on grand-canonical bookkeeping — a value stored under a guard on its own cache attribute and kept between calls must be keyed on, refreshed from, or reset by every writer of, '
+                 'each mutable input it was computed from (ASE Atoms content split into components); an under-keyed cache is reported with the input that can change behind it and the public way to '
+                 'change it. A control module with known opaque and transparent memos is analysed on every run.',
          'note': 'Not decided: plain CompositeMoves of several exchange moves deleting sequentially (index invalidation), cross-level sharing of one move object between the table and a composite. '
                  'Composite insertion giving several particles one label is a listed known finding. Assertions in the analysed code are taken to hold (they are dropped from the normal form).',
-         'technique': 'path-sensitive effect/typestate analysis with symbolic lengths/counts + finite case analysis + who-may-write on labels/unique_labels'},
+         'technique': 'path-sensitive effect/typestate analysis with symbolic lengths/counts + finite case analysis + who-may-write on labels/unique_labels + memo-site freshness analysis over the '
+                      "property's call-graph slice (rule M)"},
  'C02': {'text': "Each criterion's evaluate() is value-numbered (grand-canonical loops unrolled for particle_delta = ±1, and ±2, ±3 in the thorough tier) into a sympy expression over dataflow "
                  'sources and ln A(implemented) is decided equal to the textbook ln A(reference) by symbolic normal form; a difference is only reported with a numeric witness point of the two '
                  'formulas. Matrices are explicit 3×3 symbol matrices with numpy broadcasting semantics (so `S − P` ≠ `S − P·𝟙`). Further rules: every math.exp argument is bounded above (clamps '
@@ -117,11 +157,15 @@ CLAIMS = {'C06': {'text': "Every random draw in src/quansino is shown (who-may-c
                  'from (a NaN or stale baseline is reported with the path). Public and static helpers of the criteria are seen through unless they keep state on the criterion. Rule W: evaluate() '
                  'never writes to the context and never changes in place an array that may share storage with a context attribute (views through np.asarray / slices / .T are followed). Determinants '
                  'of the cell matrices are treated as signed volumes (a left-handed cell is legal). Rule T: the default-criteria tables are resolved per driver × shipped move (through ** spreads and '
-                 "the move's MRO); a trial that draws momenta and integrates is judged by default by a criterion whose exponent has the kinetic-energy term, and no other trial is.",
+                 "the move's MRO); a trial that draws momenta and integrates is judged by default by a criterion whose exponent has the kinetic-energy term, and no other trial is. Rule M (shared by "
+                 'every check, qsa/memo.py): no history-dependent memo on the acceptance rule — a value stored under a guard on its own cache attribute and kept between calls must be keyed on, '
+                 'refreshed from, or reset by every writer of, each mutable input it was computed from (ASE Atoms content split into components); an under-keyed cache is reported with the input that '
+                 'can change behind it and the public way to change it. A control module with known opaque and transparent memos is analysed on every run.',
          'note': 'Decides identity over the reals, not floating-point rounding near A = 1. The strain tensor is opaque except that it must vanish for an undeformed cell. For the grand-canonical '
                  'clamp (exponent ≤ 700 before a finite prefactor multiplies it) decision-neutrality assumes the prefactor is a normal double (≥ 1e-300). Unrecognised source expressions end as '
                  'analysis-error, not as a verdict. Assertions in the analysed code are taken to hold (they are dropped from the normal form).',
-         'technique': 'value numbering of straight-line code to sympy normal forms (formula identity) + shape-kind and upper-bound abstract interpretation + who-may-write on the particle counter'},
+         'technique': 'value numbering of straight-line code to sympy normal forms (formula identity) + shape-kind and upper-bound abstract interpretation + who-may-write on the particle counter + '
+                      "memo-site freshness analysis over the property's call-graph slice (rule M)"},
  'C13': {'text': 'ForceBias.step / calculate_gamma / get_zeta / calculate_trial_probability are value-numbered into sympy expressions over named sources and compared by normal form with the '
                  'reference closed forms: zeta ~ uniform(−1,1) on every definition and displacement = zeta·delta·(min M/M)^p applied unchanged through momenta/positions (hence the bound), gamma = '
                  'clip(F·delta/(2kT), ±g) with g ≤ ln(DBL_MAX), the trial probability equals the Bal–Neyts expressions for both signs of zeta with a constant in (0,1] where the denominator vanishes; '
@@ -129,63 +173,85 @@ CLAIMS = {'C06': {'text': "Every random draw in src/quansino is shown (who-may-c
                  'cached from other attributes or constructor parameters (derived-attribute resolver) are substituted by their definition and carry freshness obligations: every writer of a source '
                  'refreshes the cache, and a cache computed once in the constructor from a re-assignable public attribute is reported. Cached scaling factors are resolved through their definition '
                  '(also through expression methods) with freshness obligations for every writer of a source attribute. Rule A counts completed steps: a path that raises before any position write is '
-                 'an explicit refusal, not an advance.',
+                 'an explicit refusal, not an advance. Rule M (shared by every check, qsa/memo.py): no history-dependent memo on the force-bias step — a value stored under a guard on its own cache '
+                 'attribute and kept between calls must be keyed on, refreshed from, or reset by every writer of, each mutable input it was computed from (ASE Atoms content split into components); '
+                 'an under-keyed cache is reported with the input that can change behind it and the public way to change it. A control module with known opaque and transparent memos is analysed on '
+                 'every run.',
          'note': 'Trusted: the rejection-sampling lemma (sampled law and termination with probability 1 follow from the density being in (0,1]). Differences are reported only with a numeric witness '
                  'point of the two formulas; unrecognised sources end as analysis-error. Assertions in the analysed code are taken to hold (they are dropped from the normal form).',
-         'technique': 'value numbering to sympy normal forms + CFG path enumeration + derived-attribute (cache) resolution with freshness obligations'},
+         'technique': 'value numbering to sympy normal forms + CFG path enumeration + derived-attribute (cache) resolution with freshness obligations + memo-site freshness analysis over the '
+                      "property's call-graph slice (rule M)"},
  'C18': {'text': 'Every update function found in AdaptiveForceBias.update_functions is translated to u(v, ref) and decided symbolically: u(0)=1, u(ref)=1/2 (inverse-function folding), lim u=0, '
                  'non-increasing in v by an abstract monotonicity domain (sums, sign-definite products, increasing elementary functions) cross-checked on a grid of the derivative formula; delta is '
                  'value-numbered to min+(max−min)·u (so delta ∈ [min,max] with the stated anchor values); fallbacks return reference_variance only for missing committee data; step() adapts delta '
                  'before the inherited step on every path. Update functions are read through caches (derived-attribute resolver) and module constants; a slope cached at construction from '
                  'reference_variance is reported as stale-able. R6: structural sign analysis shows that every scheme returns a non-negative variation coefficient (the update functions are maps of '
                  '[0, ∞) only). R7: update functions and schemes never change an argument in place (directly or through np.asarray / a view). R8: no method of the force-bias drivers changes in place '
-                 'a local that may be the stored delta itself (bound to self.delta or to a zero-argument helper that can return it uncopied).',
+                 'a local that may be the stored delta itself (bound to self.delta or to a zero-argument helper that can return it uncopied). Rule M (shared by every check, qsa/memo.py): no '
+                 'history-dependent memo on the adaptive step length — a value stored under a guard on its own cache attribute and kept between calls must be keyed on, refreshed from, or reset by '
+                 'every writer of, each mutable input it was computed from (ASE Atoms content split into components); an under-keyed cache is reported with the input that can change behind it and '
+                 'the public way to change it. A control module with known opaque and transparent memos is analysed on every run.',
          'note': 'Decided over the reals; floating-point saturation of tanh/exp is not claimed. Assertions in the analysed code are taken to hold (they are dropped from the normal form).',
-         'technique': 'sympy normal forms, limits and a structural monotonicity domain + dominance on the CFG + derived-attribute (cache) resolution with freshness obligations'},
+         'technique': 'sympy normal forms, limits and a structural monotonicity domain + dominance on the CFG + derived-attribute (cache) resolution with freshness obligations + memo-site freshness '
+                      "analysis over the property's call-graph slice (rule M)"},
  'C14': {'text': "The shipped integrator's loop body is value-numbered with a stateful summary of the Atoms API (positions/momenta as expressions, forces as an uninterpreted function of the current "
                  'positions) and shown equal, by normal form, to the velocity-Verlet map applied once and twice (the latter fixes the force reuse between iterations) and, in the constrained branch, '
                  'to the variant whose second kick starts from the constrained displacement. The Maxwell–Boltzmann refresh is shown to be standard_normal from context.rng times sqrt(m·kB·T) (forced: '
                  'times sqrt(T_target/T_actual)). On the abstract heap, on every path, the kinetic energy stored for the acceptance test is that of the freshly drawn momenta present when integration '
                  'starts. MB[forced] decides the kinetic temperature of the momenta LEFT on the atoms (EK quadratic, constraint map linear and idempotent); a value returned by the refresh and '
-                 'recorded by a caller must be EK of those momenta.',
+                 'recorded by a caller must be EK of those momenta. Rule M (shared by every check, qsa/memo.py): no history-dependent memo on Hamiltonian proposals — a value stored under a guard on '
+                 'its own cache attribute and kept between calls must be keyed on, refreshed from, or reset by every writer of, each mutable input it was computed from (ASE Atoms content split into '
+                 'components); an under-keyed cache is reported with the input that can change behind it and the public way to change it. A control module with known opaque and transparent memos is '
+                 'analysed on every run.',
          'note': "Reversibility and the O(dt²) energy error are the textbook theorem about this scheme (trusted), not measured. Not decided: 'up to rounding' clauses, statistics of the drawn "
                  'momenta. Differences are reported with a witness under a concrete test force F(y)=sin y + y²/3. Assertions in the analysed code are taken to hold (they are dropped from the normal '
                  'form).',
-         'technique': 'value numbering with a stateful API summary to sympy normal forms + path-sensitive abstract-heap ordering check'},
+         'technique': "value numbering with a stateful API summary to sympy normal forms + path-sensitive abstract-heap ordering check + memo-site freshness analysis over the property's call-graph "
+                      'slice (rule M)'},
  'C10': {'text': "Each shipped operation's calculate() is value-numbered with every generator draw turned into a symbol carrying its (low, high) range: Box components are single uniform(−s, s) "
                  "draws; Ball/Sphere rows have squared norm r²/s² under sin²+cos²=1 with cosθ ~ U(−1,1), φ over one full period; Translation is U(0,1)³@cell minus the group's centroid; Rotation "
                  "rotates a copy of the group about its centre of mass and returns the difference for the same index set, with angles in the unit of ASE's degree-valued euler_rotate (validated "
                  'against the installed ASE source) over a full period; deformation generators are symmetric by construction with symmetric uniform entries, traceless for Shape, scalar for '
                  'Isotropic, blended as G∘mask + 𝟙∘(¬mask); the composite is the axis-0 sum over one call per child. G6: every operation owns its parameters (no shared module-level default mask). G4 '
                  'includes a finite case analysis of the mask handling: only `mask is None` selects the default mask. G3 accepts the centroid written as Σ rows / number of rows; dividing by the '
-                 'number of index entries is accepted only if every producer of context._moving_indices hands over integer indices, never a boolean mask (two-site rule; the producer is named).',
+                 'number of index entries is accepted only if every producer of context._moving_indices hands over integer indices, never a boolean mask (two-site rule; the producer is named). Rule '
+                 'M (shared by every check, qsa/memo.py): no history-dependent memo on proposal operations — a value stored under a guard on its own cache attribute and kept between calls must be '
+                 'keyed on, refreshed from, or reset by every writer of, each mutable input it was computed from (ASE Atoms content split into components); an under-keyed cache is reported with the '
+                 'input that can change behind it and the public way to change it. A control module with known opaque and transparent memos is analysed on every run.',
          'note': "Trusted lemmas: the (cosθ, φ) sampler is uniform on the sphere and symmetric under d→−d; expm of a symmetric matrix is SPD with inverse expm(−T); det expm(T) = exp(tr T); ASE's "
                  "euler_rotate about 'COM' keeps the centre of mass. Not decided: uniformity in distribution, volume preservation to rounding, symmetry under a non-default mask. Assertions in the "
                  'analysed code are taken to hold (they are dropped from the normal form).',
-         'technique': 'value numbering to sympy normal forms with range-carrying draw symbols + unit/shape rules validated against the ASE source'},
+         'technique': "value numbering to sympy normal forms with range-carrying draw symbols + unit/shape rules validated against the ASE source + memo-site freshness analysis over the property's "
+                      'call-graph slice (rule M)'},
  'C11': {'text': 'Dataflow and CFG rules on the displacement moves: the array handed to set_positions is sliced back to (live positions) + a fresh zero array of shape (len(atoms),3) whose single '
                  'store is at the moving indices with one operation result; moving indices are where(labels == chosen); the chosen label is drawn from unique_labels, whose only writer (who-may-write '
                  'scan over the package) filters labels ≥ 0 (predicate compared on a bounded integer domain); the no-eligible-particle branch returns register_failure() before any write; the '
                  'composite resets its list, excludes labels displaced earlier in the call, registers exactly one outcome per child on every CFG path and reports the count of non-None entries. D1 '
                  'also accepts a reused translation buffer when an exit typestate shows it all-zero on every exit; D6: every +/* combination of displacement moves builds the specialised composite '
-                 "(C17's interpreter).",
+                 "(C17's interpreter). Rule M (shared by every check, qsa/memo.py): no history-dependent memo on displacement moves — a value stored under a guard on its own cache attribute and kept "
+                 'between calls must be keyed on, refreshed from, or reset by every writer of, each mutable input it was computed from (ASE Atoms content split into components); an under-keyed cache '
+                 'is reported with the input that can change behind it and the public way to change it. A control module with known opaque and transparent memos is analysed on every run.',
          'note': 'Not decided: constraints that move other atoms (excepted by the statement itself), vetoes by user check_move. Rules read the normalised form (private helpers inlined, guards '
                  "structured); a rewrite outside the normaliser's reach ends as analysis-error or a reported deviation with the offending statement. Assertions in the analysed code are taken to hold "
                  '(they are dropped from the normal form).',
          'technique': 'normalised form (helper inlining) + row-scatter tracking of the translation array + who-may-write scan + exhaustive evaluation of the selection/registration control skeleton '
-                      'over its finite case space + abstract-heap retry rule'},
+                      "over its finite case space + abstract-heap retry rule + memo-site freshness analysis over the property's call-graph slice (rule M)"},
  'C12': {'text': 'Routing clause decided on the abstract heap: every write to positions/momenta/cell of the live atoms on every abstract path of every driver × move scenario is either a '
                  'constraint-aware proposal (ASE set_* with apply_constraint defaulted or bound to a flag whose tracked value is True by default) or an exact restore of an earlier version; a '
                  "package-wide who-may-write scan forbids raw in-place writes and literal apply_constraint=False on non-snapshots. Verlet's constrained branch (second kick from the constrained "
                  'displacement) and the force-bias momentum round trip (displacement read back after set_momenta, constraint-aware position update) are decided by value numbering / statement order. '
                  'K3 decides the position update symbolically on the normalised ForceBias.step: positions = (positions before) + get_momenta()/masses read back after set_momenta. K1 includes ASE '
                  'Atoms methods that write positions without adjust_positions (the list is computed from the installed ASE source: translate, rotate, euler_rotate, center, wrap, '
-                 'set_scaled_positions): none may be called on live atoms.',
+                 'set_scaled_positions): none may be called on live atoms. Rule M (shared by every check, qsa/memo.py): no history-dependent memo on constraint handling — a value stored under a '
+                 'guard on its own cache attribute and kept between calls must be keyed on, refreshed from, or reset by every writer of, each mutable input it was computed from (ASE Atoms content '
+                 'split into components); an under-keyed cache is reported with the input that can change behind it and the public way to change it. A control module with known opaque and '
+                 'transparent memos is analysed on every run.',
          'note': "Not decided: the FixRot clause (zero angular momentum to rounding involves an eigendecomposition — a numerical identity outside this family) and that ASE's own constraints do what "
                  "they promise (trusted; the setters' constraint handling is validated against the installed ASE source each run). Assertions in the analysed code are taken to hold (they are dropped "
                  "from the normal form). Not decided (stated): the FixRot clause 'zero total angular momentum to rounding' is a numerical identity; an independently produced breaking change of that "
                  'clause (seeded_out_of_reach/C12-7) is not reported.',
-         'technique': 'effect classification on the abstract heap (who-may-write) + package-wide writer scan + value numbering'},
+         'technique': "effect classification on the abstract heap (who-may-write) + package-wide writer scan + value numbering + memo-site freshness analysis over the property's call-graph slice "
+                      '(rule M)'},
  'C19': {'text': 'reinsert_atoms is checked for the scatter/gather shape that makes it the inverse of deletion for any index set in any order (every existing array iterated; length '
                  'len(atoms)+len(new); trailing shape of the source; dtype of the existing array; kept rows under the complement mask and re-inserted rows under the indices, in order; arrays only '
                  'carried by the re-inserted atoms added). search_molecules is decided by finite case analysis of the default-array handling (None / one-element / multi-element array: never '
@@ -193,11 +259,14 @@ CLAIMS = {'C06': {'text': "Every random draw in src/quansino is shown (who-may-c
                  'enumerate(connected components) of the neighbour-list connectivity without self-interaction. R2 additionally requires a connectivity matrix that is fresh per call (no cached '
                  'helper) and accepts the direct graph idiom; the row tracker knows both mask idioms (ones/False, zeros/True). R3: search_molecules writes into none of its arguments (the supplied '
                  "default array in particular); reinsert_atoms only into `atoms`. R1 follows undecidable branches of the per-array loop on both arms: every arm's store must be a rebuilt array with "
-                 'the index scatter.',
+                 'the index scatter. Rule M (shared by every check, qsa/memo.py): no history-dependent memo on deletion and reinsertion — a value stored under a guard on its own cache attribute and '
+                 'kept between calls must be keyed on, refreshed from, or reset by every writer of, each mutable input it was computed from (ASE Atoms content split into components); an under-keyed '
+                 'cache is reported with the input that can change behind it and the public way to change it. A control module with known opaque and transparent memos is analysed on every run. R1 '
+                 'carries sorting permutations: `idx[argsort(idx)]` / `np.sort(idx)` as selector requires every row source to carry the same permutation (and vice versa).',
          'note': "Trusted: numpy mask/index scatter semantics, ASE's neighbour list, networkx's connected components. Rules read the normalised form of the two functions; a rewrite outside the "
                  "normaliser's reach ends as analysis-error (exit 2), not as a violation. Assertions in the analysed code are taken to hold (they are dropped from the normal form).",
          'technique': 'normalised form (helper inlining) + flow-sensitive row-scatter tracking (fresh array, complement mask) + finite case analysis + exhaustive evaluation of the size window on a '
-                      'bounded domain'},
+                      "bounded domain + memo-site freshness analysis over the property's call-graph slice (rule M)"},
  'C20': {'text': 'Who-may-access analysis with the protocol surface read from protocols.py on every run: in quansino.mc.* and quansino.utils.moves the expressions denoting user move/criteria objects '
                  "(MoveStorage.move/.criteria on storage-typed expressions, add_move's parameters, locals bound to them) are collected by dataflow and every attribute taken on them must be a member "
                  'of Move ∪ Serializable resp. Criteria ∪ Serializable; isinstance tests on the move are confined to the default-criteria lookup; MonteCarlo.step routes a truthy result to '
@@ -207,8 +276,11 @@ CLAIMS = {'C06': {'text': "Every random draw in src/quansino is shown (who-may-c
                  '(`if x`, `not x`, bool(x), len(x)) on objects given to add_move or held by the move table: they call __bool__/__len__, which a conforming object may define. P5: the scheduler rules '
                  "M1–M3 of C09 (every due move is offered, forced slots are placed) are part of 'where it is executed'. P3 guard: the comparison that decides on_cell_changed must see the pre-trial "
                  "saved cell: a slot read after the chain call that refreshes it is reported, an alias taken before is accepted only if the context's save_state chain rebinds the slot rather than "
-                 'refreshing it in place.',
+                 "refreshing it in place. Rule M (shared by every check, qsa/memo.py): no history-dependent memo on the driver's use of moves and criteria — a value stored under a guard on its own "
+                 'cache attribute and kept between calls must be keyed on, refreshed from, or reset by every writer of, each mutable input it was computed from (ASE Atoms content split into '
+                 'components); an under-keyed cache is reported with the input that can change behind it and the public way to change it. A control module with known opaque and transparent memos is '
+                 'analysed on every run.',
          'note': "Decides the drivers' own code; behaviour inside user objects is out of scope. The pyright compile-fail witness pair sketched in DESIGN.md was not built (the structural rules decide "
                  'the clauses directly). Assertions in the analysed code are taken to hold (they are dropped from the normal form).',
-         'technique': "who-may-access (R-OWNER) dataflow over user-object expressions + exhaustive evaluation of the step loop's routing skeleton over (moved, verdict)"}}
-
+         'technique': "who-may-access (R-OWNER) dataflow over user-object expressions + exhaustive evaluation of the step loop's routing skeleton over (moved, verdict) + memo-site freshness analysis "
+                      "over the property's call-graph slice (rule M)"}}
